@@ -248,54 +248,134 @@ func c06R6(h H) {
 }
 
 // c06R7: what one `tls` directive of a site sets, a later one that does not mention it leaves alone (a snippet with
-// `tls { protocols tls1.3 }` imported before the site's own `tls cert key` is the usual case).  In setupTLS every store
-// to the handshake settings the property names — the protocol range, the cipher list, the client-certificate policy —
-// is reached only through the comparison of the subdirective's name with the word that configures it; a store outside
-// (after the block, from per-directive locals) resets the setting with every further directive.
+// `tls { protocols tls1.3 }` imported before the site's own `tls cert key` is the usual case).  Every store to the
+// handshake settings the property names — the protocol range, the cipher list, the client-certificate policy — made by
+// setupTLS or by the unexported code it is split into happens only while the subdirective that configures the setting
+// is being handled: the store is dominated by the comparison of the subdirective's name with that word; or it is in a
+// function that is the entry for that word in a table of subdirective handlers; or in a helper all of whose calls are
+// so dominated.  A store outside (after the block, from per-directive locals) resets the setting with every further
+// directive.
 func c06R7(h H) {
 	r := h.r
-	r.Rule("R7", "a later tls directive does not reset what an earlier one set: in caskettls.setupTLS every store to Config.ProtocolMinVersion/ProtocolMaxVersion, Ciphers, ClientAuth and ClientCerts is dominated by the comparison of the subdirective name with `protocols`, `ciphers` or `clients` respectively", 3)
+	r.Rule("R7", "a later tls directive does not reset what an earlier one set: every store to Config.ProtocolMinVersion/ProtocolMaxVersion, Ciphers, ClientAuth and ClientCerts in caskettls.setupTLS and the unexported functions it is split into is made under the subdirective `protocols`, `ciphers` or `clients` respectively — dominated by the comparison of the subdirective name with that word, or inside the handler filed under that word in a table of subdirective handlers, or in a helper called only from such places", 3)
 	fn := h.fn("R7", tlsPkg, "setupTLS")
 	if fn == nil {
 		return
 	}
 	word := map[string]string{"ProtocolMinVersion": "protocols", "ProtocolMaxVersion": "protocols", "Ciphers": "ciphers", "ClientAuth": "clients", "ClientCerts": "clients"}
-	count := map[string]int{}
-	for _, g := range withHelpers(fn, 1) {
-		if g != fn {
-			continue
+	// handlers filed under a word in a map literal of the package: word -> functions
+	filed := map[*ssa.Function]string{}
+	tableFuncs := h.p.PkgFuncs(tlsPkg)
+	if pk := h.p.Pkg(tlsPkg); pk != nil {
+		if ini := pk.Func("init"); ini != nil {
+			tableFuncs = append(tableFuncs, ini) // package-level map literals are filled in here
 		}
-		allInstrs(g, func(in ssa.Instruction) {
-			st, ok := in.(*ssa.Store)
+	}
+	for _, f := range tableFuncs {
+		allInstrs(f, func(in ssa.Instruction) {
+			mu, ok := in.(*ssa.MapUpdate)
 			if !ok {
 				return
 			}
-			fa, ok := st.Addr.(*ssa.FieldAddr)
-			if !ok || !strings.HasSuffix(strings.TrimPrefix(fa.X.Type().String(), "*"), "caskettls.Config") {
+			k, isK := constString(mu.Key)
+			if !isK {
 				return
 			}
-			f := fieldName(fa.X.Type(), fa.Field)
-			w, want := word[f]
-			if !want {
+			var target *ssa.Function
+			switch v := mu.Value.(type) {
+			case *ssa.Function:
+				target = v
+			case *ssa.MakeClosure:
+				target, _ = v.Fn.(*ssa.Function)
+			case *ssa.ChangeType:
+				target, _ = v.X.(*ssa.Function)
+			}
+			if target == nil {
 				return
 			}
-			count[f]++
-			under := false
-			for _, gd := range dominatingGuards(g, nil, in) {
-				b, ok := gd.Cond.(*ssa.BinOp)
-				if !ok || b.Op != token.EQL || !gd.Pos {
-					continue
+			filed[target] = k
+			// a method expression is a thunk around the method
+			allInstrs(target, func(x ssa.Instruction) {
+				if c := callOf(x); c != nil && c.StaticCallee() != nil && strings.HasSuffix(target.Name(), "$thunk") {
+					filed[c.StaticCallee()] = k
 				}
-				for _, op := range []ssa.Value{b.X, b.Y} {
-					if s, isC := constString(op); isC && s == w {
-						under = true
-					}
-				}
-			}
-			r.Check(under, "R7", sprintf("caskettls.setupTLS/store:%s#%d", f, count[f]), in.Pos(), "the setting is written only while the subdirective `"+w+"` is being handled")
+			})
 		})
 	}
+	underWord := func(g *ssa.Function, in ssa.Instruction, w string) bool {
+		for _, gd := range dominatingGuards(g, nil, in) {
+			b, ok := gd.Cond.(*ssa.BinOp)
+			if !ok || b.Op != token.EQL || !gd.Pos {
+				continue
+			}
+			for _, op := range []ssa.Value{b.X, b.Y} {
+				if s, isC := constString(op); isC && s == w {
+					return true
+				}
+			}
+		}
+		return false
+	}
+	var fnUnder func(g *ssa.Function, w string, depth int) bool
+	fnUnder = func(g *ssa.Function, w string, depth int) bool {
+		if filed[g] == w {
+			return true
+		}
+		if depth > 2 || g == fn {
+			return false
+		}
+		sites := callSitesOf(h.p, g)
+		if len(sites) == 0 {
+			return false
+		}
+		for _, cs := range sites {
+			if !underWord(cs.Parent(), cs, w) && !fnUnder(cs.Parent(), w, depth+1) {
+				return false
+			}
+		}
+		return true
+	}
+	scope := []*ssa.Function{fn}
+	for _, g := range h.p.PkgFuncs(tlsPkg) {
+		if g == fn || len(g.Blocks) == 0 {
+			continue
+		}
+		if o := g.Object(); o != nil && o.Exported() {
+			continue // the package's API (SetDefaultTLSParams fills in what no directive set)
+		}
+		if g.Name() == "init" || strings.HasPrefix(g.Name(), "init#") {
+			continue
+		}
+		scope = append(scope, g)
+	}
+	count := map[string]int{}
+	for _, g := range scope {
+		for _, gg := range withClosures(g) {
+			allInstrs(gg, func(in ssa.Instruction) {
+				st, ok := in.(*ssa.Store)
+				if !ok {
+					return
+				}
+				fa, ok := st.Addr.(*ssa.FieldAddr)
+				if !ok || !strings.HasSuffix(strings.TrimPrefix(fa.X.Type().String(), "*"), "caskettls.Config") {
+					return
+				}
+				f := fieldName(fa.X.Type(), fa.Field)
+				w, want := word[f]
+				if !want {
+					return
+				}
+				// a freshly allocated Config being filled in (a constructor) is not the site's stored configuration
+				if _, isAlloc := fa.X.(*ssa.Alloc); isAlloc {
+					return
+				}
+				count[f]++
+				ok = underWord(gg, in, w) || fnUnder(g, w, 0)
+				r.Check(ok, "R7", sprintf("%s/store:%s#%d", shortFunc(g), f, count[f]), in.Pos(), "the setting is written only while the subdirective `"+w+"` is being handled")
+			})
+		}
+	}
 	if count["ProtocolMinVersion"] == 0 || count["Ciphers"] == 0 || count["ClientAuth"] == 0 {
-		r.Unresolve("R7", "setupTLS: stores to the protocol range / cipher list / client-certificate policy not found")
+		r.Unresolve("R7", "caskettls: stores to the protocol range / cipher list / client-certificate policy made by the tls directive's set-up not found")
 	}
 }
